@@ -124,7 +124,9 @@ ObsCovOK(W, T, obs) ==
        /\ \A c \in 1..Len(sh.cps) : Close(obs.insts[i].cpcov[sh.cps[c].name], CovOf(T.insts[i].h[sh.cps[c].name], sh.cps[c].atl))
        /\ (obs.insts[i].cov = Full) = AllCovered(sh, T.insts[i])
   /\ \A k \in 1..Len(obs.types) :
-       LET M == SeqSet(obs.types[k].members)  any == CHOOSE i \in M : TRUE
+       LET M == SeqSet(obs.types[k].members) IN
+       M = {} \/                                    \* (a type without instances is rejected by type_is_sum_of_inst)
+       LET any == CHOOSE i \in M : TRUE
            sh == W.shapes[T.insts[any].shape]  d == TypeData(W, T, M) IN
        /\ Close(obs.types[k].cov, GroupCov(sh, d))
        /\ (obs.types[k].cov = Full) = AllCovered(sh, d)
